@@ -38,6 +38,26 @@ def _all_states_added_later():
     return m, [(0, None), (0, None)], [7.0, 0.0], 0.0, 6.0
 
 
+def _odevariable_states():
+    """states declared as ODEVariable objects (no limits given: lower limit 0)"""
+    import pg
+    from pygom.model.base_ode_model import ODEVariable
+    m = pg.model(state=[ODEVariable("X", "X"), ODEVariable("Y", "Y")], param=["k", "g"],
+                 event=[pg.Event(rate="g", transition_list=[pg.Transition(origin="X", destination="Y", transition_type="T", magnitude="2")])])
+    m.parameters = [("k", 0.05), ("g", 5.0)]
+    return m, [(0, None), (0, None)], [7.0, 0.0], 0.0, 6.0
+
+
+def _unlimited_before_limited():
+    """a state declared without any limit, (None, None), listed before a state whose declared ceiling binds"""
+    import pg
+    m = pg.model(state=[("T", (None, None)), ("A", (0, None)), ("X", (0, 6))], param=["k", "g"],
+                 event=[pg.Event(rate="k*A", transition_list=[pg.Transition(origin="A", destination="X", transition_type="T")]),
+                        pg.Event(rate="g", transition_list=[pg.Transition(origin="T", transition_type="D")])])
+    m.parameters = [("k", 1.0), ("g", 2.0)]
+    return m, [(None, None), (0, None), (0, 6)], [0.0, 20.0, 0.0], 0.0, 6.0
+
+
 def _late_start():
     """initial time 2: an output grid that starts before it holds the initial state there"""
     import pg
@@ -48,7 +68,8 @@ def _late_start():
     return m, [(0, 2000), (0, 600)], [1500.0, 100.0], 2.0, 8.0
 
 
-SCENARIOS = {"all-states-added-after-construction": _all_states_added_later, "state-added-after-construction": _extended, "state-added-after-construction/upper": _extended_upper,
+SCENARIOS = {"states-declared-as-ODEVariable": _odevariable_states, "unlimited-state-before-limited": _unlimited_before_limited,
+             "all-states-added-after-construction": _all_states_added_later, "state-added-after-construction": _extended, "state-added-after-construction/upper": _extended_upper,
              "grid-before-initial-time": _late_start}
 
 
